@@ -4,6 +4,7 @@ import os
 import re
 from ..query import deep_roots, ultimate_roots, describe_origin, option_arms, assigns_ret_variant, field_path, TRANSPARENT, calls_in
 from ..facts import AnchorError
+from ..query import closure_consumer
 
 HERE = os.path.dirname(os.path.dirname(os.path.dirname(os.path.abspath(__file__))))
 TABLE = os.path.join(HERE, "tables", "panic_sites.json")
@@ -455,6 +456,39 @@ def g_multi_nonempty(ctx):
         sites = [c.bb for c in f.calls if c.name == "index" and "Vec" in c.best and any(o.kind == "call" and o.ref.name in ("get_multiple_matches", "get_nodes_from_env") for o in deep_roots(prog, f, c.args[0]))]
         res.append(bool(sites) and _on_nonempty_arm(prog, f, sites))
     return all(res), "index sites lie on the non-empty arm of nodes.is_empty(): %s" % res
+
+
+@guard("off_rules_never_scanned")
+def g_off_rules(ctx):
+    """the `unreachable!("turned-off rule should not have match")` arms of the printers: every CombinedScan is built from rules that
+    came out of a RuleCollection (whose constructor drops Severity::Off) or from a pipeline that filters on `.severity`"""
+    prog = ctx.prog
+    from ..query import iter_chain
+    tn = prog.one_fn(r"^ast_grep_config::rule_collection::RuleCollection::<L>::try_new$")
+    sw = [bi for bi in tn.live_blocks if (si := tn.switch_info(bi)) and si.get("enum") and si["enum"].endswith("::Severity") and "Off" in si["arms"]]
+    coll_ok = bool(sw)
+    sites, bad = 0, []
+    for f in prog.fns.values():
+        if not f.crate.startswith("ast_grep") or f.crate in ("ast_grep_napi", "ast_grep_py"):
+            continue
+        for c in f.calls:
+            if not c.best.endswith("CombinedScan::<'r, L>::new") or c.bb not in f.live_blocks:
+                continue
+            sites += 1
+            ad, lv = iter_chain(prog, f, c.args[0])
+            from_coll = bool(lv) and all(o.kind == "call" and o.ref.name in ("get_rule_from_lang", "for_path", "get_rules") for ff, o in lv)
+            filt = False
+            for ff, a in ad:
+                if a.name == "filter":
+                    for g in prog.closures_of(ff):
+                        cons = closure_consumer(prog, g)
+                        if cons and cons[1] is a and ".severity|" in repr([b["s"] for b in g.blocks] + [b["t"] for b in g.blocks]):
+                            filt = True
+            if not (from_coll or filt):
+                bad.append(f.id)
+    ok = coll_ok and sites >= 3 and not bad
+    return ok, ("RuleCollection::try_new skips Severity::Off; %d CombinedScan::new sites take their rules from a RuleCollection or filter on severity" % sites) if ok else \
+        "a CombinedScan is built from rules that may include severity off (%s; RuleCollection filters: %s): a match of such a rule reaches the printers' unreachable!()" % (bad, coll_ok)
 
 
 @guard("deserialize_rule_nonempty")
